@@ -58,7 +58,12 @@ def _rand_cfg(rnd, n, m, chains=True, xprob=0.12):
             'on_enter': [rnd.random() < .6 for _ in range(n)],
             'on_exit': [rnd.random() < .6 for _ in range(n)],
             'on_notrans': rnd.random() < .7, 'on_output': rnd.random() < .7, 'chain': chain,
-            'xchain': [rnd.random() < xprob for _ in range(n)]}
+            'xchain': [rnd.random() < xprob for _ in range(n)],
+            # hold states: calc_output() returns UNDEF = "leave the output unchanged" (never the
+            # initial state s1, and not together with requests made during the initialisation:
+            # an FSM without an output does not start)
+            'hold': [s > 0 and rnd.random() < 0.25 and not any(c.get('always') for c in chain)
+                     for s in range(n)]}
 
 
 def _rand_seq(rnd, cfg, ln):
@@ -96,7 +101,8 @@ def stimuli(tier, seed, ctx):
                                    'cond': [3, 1], 'enter': [3, 1], 'exit': [1, 3],
                                    'on_enter': [True, True], 'on_exit': [True, True],
                                    'on_notrans': True, 'on_output': True,
-                                   'chain': [dict(NOCHAIN), dict(NOCHAIN)], 'xchain': [False, k % 5 == 0]}
+                                   'chain': [dict(NOCHAIN), dict(NOCHAIN)], 'xchain': [False, k % 5 == 0],
+                                   'hold': [False, k % 4 == 1]}
                             out.append({'cfg': cfg, 'seq': _rand_seq(rnd, cfg, 8)})
     # (ii) random machines with chains
     for _ in range(600 if tier == 'quick' else 15000):
@@ -179,6 +185,13 @@ def execute(stim):
         if t != -1:
             events.append((f'e{e}', None, f's{t}' if t else None))
     ns = {'STATES': [f's{s}' for s in range(1, n + 1)], 'EVENTS': events}
+    cfg.setdefault('hold', [False] * n)
+    hold = cfg['hold']
+    if any(hold):
+        def calc_output(self):
+            st_ = self.state
+            return edzed.UNDEF if hold[int(st_[1:]) - 1] else st_
+        ns['calc_output'] = calc_output
     inst = {}
     known = {ev[0] for ev in events}
     for e in range(1, m + 1):
